@@ -348,7 +348,8 @@ func ruleNatCmp(p *Prog, r *Report) {
 				})
 			})
 			valK, numK := "", ""
-			for k, ti := range c.terms {
+			for _, k := range c.termKeys() {
+				ti := c.terms[k]
 				if strings.HasPrefix(k, "Atoi(") && strings.HasSuffix(k, "#0") && len(ti.base) == 1 {
 					valK, numK = k, ti.base[0]
 				}
